@@ -166,6 +166,48 @@ fn crafted_inference_programs() -> Vec<String> {
     ] {
         v.push(prog.to_string());
     }
+    // range patterns that leave out part of the type, in the positions that demand an irrefutable
+    // pattern: every number type x bounds at and next to MIN, -1, 0, 1 and MAX x with and without
+    // suffix (only the full range MIN..=MAX is irrefutable)
+    for (ty, min, max) in [
+        ("i8", i8::MIN as i128, i8::MAX as i128),
+        ("i16", i16::MIN as i128, i16::MAX as i128),
+        ("i32", i32::MIN as i128, i32::MAX as i128),
+        ("i64", i64::MIN as i128, i64::MAX as i128),
+        ("u8", 0, u8::MAX as i128),
+        ("u16", 0, u16::MAX as i128),
+        ("u32", 0, u32::MAX as i128),
+        ("usize", 0, u32::MAX as i128),
+        ("u64", 0, u64::MAX as i128),
+    ] {
+        let mut points = vec![min, min + 1, -1, 0, 1, 3, 100, max - 1, max];
+        points.retain(|p| *p >= min && *p <= max);
+        points.dedup();
+        for &lo in &points {
+            for &hi in &points {
+                if lo > hi || (lo == min && hi == max) {
+                    continue;
+                }
+                // (only bounds that are next to an end of the type or to zero: the others add nothing)
+                if lo != min && hi != max {
+                    continue;
+                }
+                let mut spellings = vec![format!("{lo}{ty}..={hi}{ty}")];
+                // without suffix only when both bounds have the same sign (otherwise a parse error)
+                if (lo < 0) == (hi < 0) {
+                    spellings.push(format!("{lo}..={hi}"));
+                }
+                if hi < max {
+                    spellings.push(format!("{lo}{ty}..{}{ty}", hi + 1));
+                }
+                for pat in spellings {
+                    v.push(format!("pub fn main(x: {ty}) -> u8 {{ let {pat} = x; 0u8 }}\n"));
+                    v.push(format!("pub fn main(xs: [{ty}; 3]) -> u8 {{ for {pat} in xs {{ }} 0u8 }}\n"));
+                    v.push(format!("pub fn main(t: (bool, {ty})) -> u8 {{ let (b, {pat}) = t; 0u8 }}\n"));
+                }
+            }
+        }
+    }
     v
 }
 
